@@ -37,8 +37,10 @@ HdrOps    == {"Get", "Head"}                                            \* ops w
 MaintCode == 1027     \* apistatus.NodeUnderMaintenance
 
 \* ---- ground truth predicates over the request class
-SigInitOK(c) == c.sig \in {"ok", "chunkbad", "chunknone"}   \* first message of the stream verifies
-SigAllOK(c)  == c.sig = "ok"                                \* every message verifies
+\* "exempt" = no verification header, admissible: the peer is authenticated by the TLS handshake and TTL = 1;
+\* every other value but "ok" (none, bad, forged = header present but invalid, ...) fails the verification
+SigInitOK(c) == c.sig \in {"ok", "exempt", "chunkbad", "chunknone"}   \* first message of the stream verifies
+SigAllOK(c)  == c.sig \in {"ok", "exempt"}                            \* every message verifies
 HasTok(c)    == c.tok # "none"
 TokOK(c)     == c.tok \in {"none", "ok", "bearer_ok"}
 \* request passes every request-time check: only such a request may cause effects
